@@ -2,6 +2,7 @@
 import numpy as np
 from fractions import Fraction as F
 import core
+import leafgen as lg
 from core import cq, fr, fl, Raw, N, Some, dy
 
 ID = 'C09'
@@ -113,6 +114,12 @@ def build(c):
     cb = (-1000.0, 1000.0) if c['cb_pair'] else None
     post = {k: kw.pop(k) for k in ('sustainment', 'efficiency', 'start')} if c.get('post_set') else {}
     d = dk.SDevice('s', n, np.array(fl([list(b) for b in c['bounds']])), cb, **kw)
+    if post and int(core.case_hash({'r': [str(v) for v in c['r']]}), 16) % 2 == 0:
+      lg.warm_up(d)      # used once (project/cost/deriv/constraints) BEFORE the late parameters are assigned: nothing may be memoised
+      try:
+        d.charge_at(np.zeros(n))
+      except Exception:
+        pass
     for k, v in post.items():
       setattr(d, k, v)
     return d
